@@ -869,6 +869,27 @@ func genC13(c *Ctx) {
 	wr("loadMMapNeverCloser", mmNeverCloser)
 	strs("openWriterAfterLockFail", "OpenWriter: the statements between a failed `directory.Lock()` and `return nil, err` (and every deferred call of OpenWriter)", afterLockFail)
 	strs("writerCloseDirectoryCalls", "Writer.close: its calls on the directory, in source order", closeDirCalls)
+	// ---- the item writer of snapshots: its buffered tail must reach the file or be reported (Persist trusts WriteTo's error)
+	wt := pkg.Func("Snapshot.WriteTo")
+	if wt == nil || wt.Body == nil {
+		c.Refuse("Snapshot.WriteTo not found")
+	}
+	var wtTail []string
+	deferred := []string{}
+	ast.Inspect(wt.Body, func(n ast.Node) bool {
+		if d, ok := n.(*ast.DeferStmt); ok {
+			deferred = append(deferred, norm(d))
+		}
+		return true
+	})
+	nst := len(wt.Body.List)
+	for i := nst - 3; i < nst; i++ {
+		if i >= 0 {
+			wtTail = append(wtTail, norm(wt.Body.List[i]))
+		}
+	}
+	strs("snapshotWriteToTail", "(*Snapshot).WriteTo: its last three statements (the buffered writer is flushed and the error returned)", wtTail)
+	strs("snapshotWriteToDefers", "(*Snapshot).WriteTo: its deferred calls (a deferred Flush would drop the error)", deferred)
 	b.WriteString("end BlugeGen.C13\n")
 	c.WriteLean("C13", b.String())
 	c.Summary["persist_steps"] = persist
